@@ -1,5 +1,477 @@
-"""Contracts of the wire-format encoders / decoders (C05c, C06, C07)."""
+"""Contracts of the wire-format encoders / decoders (C05c, C06, C07) and the tasks that check them."""
+from __future__ import annotations
+import time
+import z3
+from pyvc import values as V
+from pyvc.values import Sym, bool_term, vand, vor, vnot, veq, mk_int, mk_bool, ite
+from pyvc.gv import GV
+from pyvc.sbytes import SBytes
+from pyvc.sstr import SStr, Fmt, Atom, sstr_concat
+from pyvc.report import Task
+from pyvc.tasks import repo, budget, result_dict
+from pyvc.solve import Obligation, discharge
+from pyvc.symex import explore, Obj, Opaque, PyRaise, make_exc, FuncVal
+from pyvc.builtins import EncodedStr
+from contracts.headers import ExtractHeader, BuildHeader
+from contracts.utils_c import Checksum
+from spec import specfun as S
+
+ENC = 'encoder.NMEA2000Encoder.'
+DEC = 'decoder.NMEA2000Decoder.'
+
+
+def term(x):
+    if isinstance(x, bool):
+        return z3.BoolVal(x)
+    if isinstance(x, z3.ExprRef):
+        return x
+    return bool_term(x)
+
+
+def seq_eq(a, b):
+    """Equality of two byte sequences given as lists of items / SBytes."""
+    a = list(SBytes.of(a).items) if not isinstance(a, list) else a
+    b = list(SBytes.of(b).items) if not isinstance(b, list) else b
+    if len(a) != len(b):
+        return False
+    return vand(*[x == y for x, y in zip(a, b)])
+
+
+def checksum_contract():
+    def call(ex, f, args, kwargs):
+        data = args[0]
+        items = list(data.items) if isinstance(data, SBytes) else list(data)
+        tot = 0
+        for b in items[2:19]:
+            tot = tot + b
+        return tot % 256
+    return call
+
+
+def header_contracts():
+    return {'nmea2000.decoder.NMEA2000Decoder._extract_header': ExtractHeader().as_callee(),
+            'nmea2000.encoder.NMEA2000Encoder._build_header': BuildHeader().as_callee(),
+            'nmea2000.utils.calculate_canbus_checksum': checksum_contract()}
+
+
+class Msg:
+    """A message object with symbolic addressing (the header fields the wire encoders read)."""
+    def __init__(self, ex, r):
+        self.pgn = ex.fresh('msg.PGN', bits=18)
+        self.src = ex.fresh('msg.source', bits=8)
+        self.dst = ex.fresh('msg.destination', bits=8)
+        self.prio = ex.fresh('msg.priority', bits=3)
+        self.obj = Obj(r.cls('message', 'NMEA2000Message'), {'PGN': self.pgn, 'source': self.src, 'destination': self.dst, 'priority': self.prio,
+                                                             'id': 'x', 'fields': []})
+        self.inputs = {'msg.PGN': self.pgn.t, 'msg.source': self.src.t, 'msg.destination': self.dst.t, 'msg.priority': self.prio.t}
+
+    def can_id(self):
+        return S.build(self.pgn, self.src, self.dst, self.prio)
+
+
+def frames_for(ex, lengths):
+    out = []
+    for k, n in enumerate(lengths):
+        out.append(SBytes([ex.fresh(f'frame{k}[{i}]', bits=8) for i in range(n)]))
+    return out
+
+
+def be32(x):
+    return [(x >> 24) & 0xFF, (x >> 16) & 0xFF, (x >> 8) & 0xFF, x & 0xFF]
+
+
+# ---- specifications of the four packet formats (from the property statement) ---------------------------
+def spec_ebyte(can_id, data):
+    n = len(data)
+    return [0x80 | n] + be32(can_id) + list(data) + [0] * (8 - n)
+
+
+def spec_usb(can_id, data):
+    n = len(data)
+    body = [0xAA, 0x55, 0x01, 0x02, 0x01] + be32(can_id)[::-1] + [n] + list(data) + [0] * (8 - n) + [0]
+    tot = 0
+    for b in body[2:19]:
+        tot = tot + b
+    return body + [tot % 256]
+
+
+def hex_tokens(items, spec='02X'):
+    return [Fmt(b, spec) if isinstance(b, Sym) else format(b, spec) for b in items]
+
+
+def spec_yd(can_id, data):
+    parts = hex_tokens(be32(can_id)) + [' ']
+    for i, b in enumerate(data):
+        if i:
+            parts.append(' ')
+        parts += hex_tokens([b])
+    parts.append('\r\n')
+    out = ''
+    for p in parts:
+        out = sstr_concat(out, p if isinstance(p, str) else SStr([p]))
+    return out
+
+
+def spec_actisense(msg, payload):
+    n = (msg.src << 12) | (msg.dst << 4) | msg.prio
+    out = ''
+    for p in [Fmt(n, '05X'), ' ', Fmt(msg.pgn, '05X'), ' '] + hex_tokens(list(payload)):
+        out = sstr_concat(out, p if isinstance(p, str) else SStr([p]))
+    return out
+
+
+def sstr_of(v):
+    return v.s if isinstance(v, EncodedStr) else v
+
+
+def str_eq(a, b):
+    if isinstance(a, str) and isinstance(b, str):
+        return a == b
+    return SStr.eq(None, a, b)
+
+
+class EncoderTask(Task):
+    """encode_ebyte / encode_usb / encode_yacht_devices against the packet layouts, for frames of every length 0..8."""
+    def __init__(self, fmt, prop='C06'):
+        self.fmt = fmt
+        self.prop = prop
+        self.name = f'{prop}:encode_{fmt}'
+
+    def run(self, tier):
+        out = {'results': [], 'functions': [], 'notes': [], 'bounded': []}
+        r = repo()
+        fname = {'ebyte': 'encode_ebyte', 'usb': 'encode_usb', 'yd': 'encode_yacht_devices', 'actisense': 'encode_actisense'}[self.fmt]
+        info = r.func(ENC + fname)
+        if info is None:
+            out['error'] = f'{fname} not found'
+            return out
+        out['functions'].append(info.describe())
+        base = f'{self.prop}/{ENC}{fname}'
+        lengths = list(range(0, 9)) if self.fmt != 'actisense' else [0, 1, 3, 8, 17]
+
+        def run(ex):
+            m = Msg(ex, r)
+            ex.ghost['m'] = m
+            frames = frames_for(ex, lengths)
+            ex.ghost['frames'] = frames
+            enc = Obj(r.cls('encoder', 'NMEA2000Encoder'), {'sequence_counter': ex.fresh('seq', bits=3)})
+            if self.fmt == 'actisense':
+                k = ex.choose(len(lengths), 'payload-length')
+                ex.ghost['k'] = k
+            return ex._run_body(info, [m.obj], {}, enc)
+
+        def c_encode(ex, f, args, kwargs):
+            ex.ghost.setdefault('encode_calls', []).append(args)
+            return list(ex.ghost['frames'])
+
+        def c_call_encode(ex, f, args, kwargs):
+            ex.ghost.setdefault('encode_calls', []).append(args)
+            return ex.ghost['frames'][ex.ghost['k']]
+        contracts = header_contracts()
+        contracts['nmea2000.encoder.NMEA2000Encoder._encode'] = c_encode
+        contracts['nmea2000.encoder.NMEA2000Encoder._call_encode_function'] = c_call_encode
+        try:
+            results = explore(r, run, contracts=contracts, inline={'nmea2000.encoder.NMEA2000Encoder.bytes_to_hex_string'})
+        except V.Unsupported as u:
+            out['error'] = f'{fname}: outside the modelled subset: {u}'
+            return out
+        obs = []
+        for pi, p in enumerate(results):
+            m = p.ex.ghost['m']
+            frames = p.ex.ghost['frames']
+            hyps = list(p.pc)
+            inputs = dict(m.inputs)
+            for k, fr in enumerate(frames):
+                for i, b in enumerate(fr.items):
+                    inputs[f'frame{k}[{i}]'] = b.t
+
+            def add(name, goal, note=''):
+                obs.append(Obligation(f'{base}/{name}/path[{pi}]', hyps, term(goal), kind='ensures', func=info.fullname, inputs=inputs, meta={'note': note, 'fmt': self.fmt}))
+            for (oname, cond, pc_snap) in p.ex.obligations:
+                obs.append(Obligation(f'{base}/{oname}/path[{pi}]', pc_snap, cond, kind='requires@callsite', inputs=inputs, meta={'fmt': self.fmt}))
+            if p.kind == 'raise':
+                add('no-exception', False, f'raises {p.exc_name()}')
+                continue
+            calls = p.ex.ghost.get('encode_calls', [])
+            add('encodes-this-message-once', len(calls) == 1 and calls[0][0] is m.obj)
+            cid = m.can_id()
+            if self.fmt == 'actisense':
+                k = p.ex.ghost['k']
+                add('actisense-line-is-header-pgn-payload-hex', str_eq(p.value, spec_actisense(m, frames[k])), f'got {p.value!r}')
+                continue
+            res = p.value
+            add('one-packet-per-frame', isinstance(res, list) and len(res) == len(frames))
+            if not isinstance(res, list):
+                continue
+            for k, (pk, fr) in enumerate(zip(res, frames)):
+                n = len(fr)
+                if self.fmt == 'ebyte':
+                    add(f'packet-is-exactly-13-bytes[data_length={n}]', isinstance(pk, (SBytes, bytes)) and len(pk) == 13, f'{len(pk) if hasattr(pk, "__len__") else "?"} bytes')
+                    want = spec_ebyte(cid, fr.items)
+                    got = list(SBytes.of(pk).items) if isinstance(pk, (SBytes, bytes)) else []
+                    add(f'type-byte-id-data[data_length={n}]', seq_eq(got[:5 + n], want[:5 + n]) if len(got) >= 5 + n else False)
+                    add(f'zero-padding[data_length={n}]', seq_eq(got, want) if len(got) == 13 else False)
+                elif self.fmt == 'usb':
+                    add(f'packet-is-exactly-20-bytes[data_length={n}]', isinstance(pk, (SBytes, bytes)) and len(pk) == 20)
+                    want = spec_usb(cid, fr.items)
+                    got = list(SBytes.of(pk).items) if isinstance(pk, (SBytes, bytes)) else []
+                    add(f'header-id-length-data-padding[data_length={n}]', seq_eq(got[:19], want[:19]) if len(got) == 20 else False)
+                    add(f'checksum-is-sum-of-bytes-2-to-18[data_length={n}]', (got[19] == want[19]) if len(got) == 20 else False)
+                else:
+                    add(f'line-is-id-bytes-crlf[data_length={n}]', str_eq(sstr_of(pk), spec_yd(cid, fr.items)) if isinstance(pk, (EncodedStr, bytes)) else False, f'got {pk!r}')
+        finish(obs, out, tier, info)
+        return out
+
+
+def finish(obs, out, tier, info, replay=None):
+    for ob in obs:
+        res = discharge(ob, budget(tier))
+        dct = result_dict(res, with_size=False)
+        dct['function'] = info.fullname if info is not None else ''
+        if res.status == 'refuted':
+            dct['reason'] = ob.meta.get('note', '')
+            from contracts.wire_replay import replay_wire
+            dct['replay'] = replay_wire(ob, res.model or {})
+        out['results'].append(dct)
+
+
+# ---- decoders ---------------------------------------------------------------------------------------
+def c_decode_logger():
+    def call(ex, f, args, kwargs):
+        a = list(args)
+        names = ['pgn', 'priority', 'source_id', 'destination_id', 'timestamp', 'can_data', 'raw_can_data', 'already_combined']
+        d = dict(zip(names, a))
+        d.update(kwargs)
+        d.setdefault('already_combined', False)
+        ex.ghost.setdefault('decode_calls', []).append(d)
+        return Opaque('decode-result')
+    return call
+
+
+def yd_line(ex, can_id, data, case='X', direction='R'):
+    parts = [SStr([Atom('timestamp')]), ' ', direction, ' ', SStr([Fmt(can_id, '08' + case)])]
+    for b in data:
+        parts += [' ', SStr([Fmt(b, '02' + case)])]
+    out = ''
+    for p in parts:
+        out = sstr_concat(out, p)
+    return out
+
+
+def actisense_line(ex, n, pgn, payload, case='X'):
+    sec = ex.fresh('ts.seconds', lo=0)
+    ms = ex.fresh('ts.millis', lo=0, hi=999)
+    out = ''
+    for p in ['A', SStr([Fmt(sec, '')]), '.', SStr([Fmt(ms, '')]), ' ', SStr([Fmt(n, '05' + case)]), ' ', SStr([Fmt(pgn, '05' + case)]), ' '] + \
+             [SStr([Fmt(b, '02' + case)]) for b in payload]:
+        out = sstr_concat(out, p)
+    return out
+
+
+def basic_line(ex, prio, pgn, src, dst, length, data, z=False):
+    ts = SStr([Atom('timestamp', ends='digit')] + (['Z'] if z else []))
+    out = ''
+    parts = [ts, ',', SStr([Fmt(prio, '')]), ',', SStr([Fmt(pgn, '')]), ',', SStr([Fmt(src, '')]), ',', SStr([Fmt(dst, '')]), ',', SStr([Fmt(length, '')])]
+    for b in data:
+        parts += [',', SStr([Fmt(b, '02x')])]
+    for p in parts:
+        out = sstr_concat(out, p)
+    return out
+
+
+class DecoderTask(Task):
+    """The five decode_* front ends: each hands _decode exactly (header of the identifier, reversed data bytes)."""
+    def __init__(self, fmt, prop='C06'):
+        self.fmt = fmt
+        self.prop = prop
+        self.name = f'{prop}:decode_{fmt}'
+
+    def run(self, tier):
+        out = {'results': [], 'functions': [], 'notes': [], 'bounded': []}
+        r = repo()
+        fname = {'tcp': 'decode_tcp', 'usb': 'decode_usb', 'yd': 'decode_yacht_devices_string', 'actisense': 'decode_actisense_string', 'basic': 'decode_basic_string'}[self.fmt]
+        info = r.func(DEC + fname)
+        if info is None:
+            out['error'] = f'{fname} not found'
+            return out
+        out['functions'].append(info.describe())
+        base = f'{self.prop}/{DEC}{fname}'
+        variants = {'tcp': [('len13', None)], 'usb': [('len20', None), ('len19', None), ('len21', None)],
+                    'yd': [(f'{n}bytes-{c}-{d}', (n, c, d)) for n in range(0, 9) for (c, d) in (('X', 'R'), ('x', 'T'))] + [('bad-direction', (3, 'X', 'Q'))],
+                    'actisense': [(f'{n}bytes-{c}', (n, c)) for n in (1, 3, 8, 17) for c in ('X', 'x')],
+                    'basic': [(f'{n}bytes-{"Z" if z else "plain"}-{"combined" if ac else "frames"}', (n, z, ac)) for n in (1, 3, 8) for z in (False, True) for ac in (False, True)]}[self.fmt]
+        obs = []
+        for vname, vp in variants:
+            def run(ex, vp=vp, vname=vname):
+                g = ex.ghost
+                dec = Obj(r.cls('decoder', 'NMEA2000Decoder'), {})
+                cid = ex.fresh('can_id', bits=32)
+                g['cid'] = cid
+                g['inputs'] = {'can_id': cid.t}
+                if self.fmt == 'tcp':
+                    pk = SBytes([ex.fresh(f'packet[{i}]', bits=8) for i in range(13)])
+                    g['pk'] = pk
+                    return ex._run_body(info, [pk], {}, dec)
+                if self.fmt == 'usb':
+                    n = int(vname[3:])
+                    pk = SBytes([ex.fresh(f'packet[{i}]', bits=8) for i in range(n)])
+                    g['pk'] = pk
+                    return ex._run_body(info, [pk], {}, dec)
+                if self.fmt == 'yd':
+                    n, c, d = vp
+                    data = [ex.fresh(f'data[{i}]', bits=8) for i in range(n)]
+                    g['data'] = data
+                    line = yd_line(ex, cid, data, c, d)
+                    g['line'] = line
+                    return ex._run_body(info, [line], {}, dec)
+                if self.fmt == 'actisense':
+                    n, c = vp
+                    data = [ex.fresh(f'data[{i}]', bits=8) for i in range(n)]
+                    g['data'] = data
+                    hn = ex.fresh('header_word', bits=20)
+                    pgn = ex.fresh('pgn', bits=20)
+                    g['hn'], g['pgn'] = hn, pgn
+                    line = actisense_line(ex, hn, pgn, data, c)
+                    g['line'] = line
+                    return ex._run_body(info, [line], {}, dec)
+                n, z, ac = vp
+                data = [ex.fresh(f'data[{i}]', bits=8) for i in range(n)]
+                g['data'] = data
+                g['f'] = {k: ex.fresh(k, lo=0, hi=hi) for k, hi in (('prio', 7), ('pgn', (1 << 18) - 1), ('src', 255), ('dst', 255))}
+                g['length'] = ex.fresh('length', lo=0, hi=300)
+                line = basic_line(ex, g['f']['prio'], g['f']['pgn'], g['f']['src'], g['f']['dst'], g['length'], data, z)
+                g['line'] = line
+                return ex._run_body(info, [line, ac], {}, dec)
+            contracts = header_contracts()
+            contracts['nmea2000.decoder.NMEA2000Decoder._decode'] = c_decode_logger()
+            try:
+                results = explore(r, run, contracts=contracts)
+            except V.Unsupported as u:
+                out['error'] = f'{fname}[{vname}]: outside the modelled subset: {u}'
+                continue
+            for pi, p in enumerate(results):
+                g = p.ex.ghost
+                hyps = list(p.pc)
+                inputs = dict(g.get('inputs', {}))
+                for key in ('pk', 'data'):
+                    if key in g:
+                        for i, b in enumerate(g[key].items if isinstance(g[key], SBytes) else g[key]):
+                            inputs[f'{"packet" if key == "pk" else "data"}[{i}]'] = b.t
+
+                def add(name, goal, note=''):
+                    obs.append(Obligation(f'{base}[{vname}]/{name}/path[{pi}]', hyps, term(goal), kind='ensures', func=info.fullname, inputs=inputs,
+                                          meta={'note': note, 'fmt': self.fmt, 'variant': vname}))
+                for (oname, cond, pc_snap) in p.ex.obligations:
+                    obs.append(Obligation(f'{base}[{vname}]/{oname}/path[{pi}]', pc_snap, cond, kind='requires@callsite', inputs=inputs, meta={'fmt': self.fmt}))
+                calls = g.get('decode_calls', [])
+                self.check(p, g, calls, add, vname, vp)
+        finish(obs, out, tier, info)
+        return out
+
+    def check(self, p, g, calls, add, vname, vp):
+        def hdr_ok(call, cid):
+            pgn, src, dst, prio = S.extract(cid)
+            return vand(veq(call['pgn'], pgn), veq(call['source_id'], src), veq(call['destination_id'], dst), veq(call['priority'], prio))
+        if self.fmt == 'tcp':
+            pk = g['pk'].items
+            if p.kind == 'raise':
+                add('no-exception', False, f'raises {p.exc_name()}')
+                return
+            add('exactly-one-decode', len(calls) == 1 and p.value is not None)
+            if len(calls) != 1:
+                return
+            c = calls[0]
+            cid = (pk[1] << 24) + (pk[2] << 16) + (pk[3] << 8) + pk[4]
+            add('header-is-the-parsed-big-endian-identifier', hdr_ok(c, cid))
+            dl = pk[0] & 0x0F
+            data = c['can_data']
+            n = len(data) if isinstance(data, (SBytes, bytes)) else -1
+            add('data-length-from-the-type-byte', vor(dl == n, vand(dl > 8, n == 8)) if n >= 0 else False)
+            add('data-bytes-reversed', seq_eq(list(SBytes.of(data).items), list(reversed(pk[5:5 + n]))) if n >= 0 else False)
+            add('frame-level-call', c['already_combined'] is False)
+            return
+        if self.fmt == 'usb':
+            pk = g['pk'].items
+            n = len(pk)
+            bad_hdr = vor(pk[0] != 0xAA, pk[1] != 0x55)
+            if p.kind == 'raise':
+                add('raises-only-for-a-wrong-header', bad_hdr)
+                add('nothing-decoded-on-error', not calls)
+                return
+            add('wrong-header-raises', vnot(bad_hdr))
+            if n != 20:
+                add('other-lengths-yield-nothing', p.value is None and not calls)
+                return
+            tot = 0
+            for b in pk[2:19]:
+                tot = tot + b
+            good = (tot % 256) == pk[19]
+            if not calls:
+                add('valid-checksum-is-decoded', vnot(good))
+                add('returns-nothing', p.value is None)
+                return
+            add('bad-checksum-is-never-decoded', good)
+            add('exactly-one-decode', len(calls) == 1)
+            c = calls[0]
+            cid = (pk[8] << 24) + (pk[7] << 16) + (pk[6] << 8) + pk[5]
+            add('header-is-the-parsed-little-endian-identifier', hdr_ok(c, cid))
+            data = c['can_data']
+            m = len(data) if isinstance(data, (SBytes, bytes)) else -1
+            add('data-length-from-the-length-byte', vor(pk[9] == m, vand(pk[9] > 10, m == 10)) if m >= 0 else False)
+            add('data-bytes-reversed', seq_eq(list(SBytes.of(data).items), list(reversed(pk[10:10 + m]))) if m >= 0 else False)
+            add('frame-level-call', c['already_combined'] is False)
+            return
+        if self.fmt == 'yd':
+            n, cs, d = vp
+            if d not in ('R', 'T') or n == 0:
+                add('malformed-line-raises-ValueError', p.kind == 'raise' and p.exc_name() == 'ValueError' and not calls, f'{p.kind} {p.exc_name()}')
+                return
+            if p.kind == 'raise':
+                add('no-exception', False, f'raises {p.exc_name()}')
+                return
+            add('exactly-one-decode', len(calls) == 1)
+            if len(calls) != 1:
+                return
+            c = calls[0]
+            add('header-is-the-parsed-identifier', hdr_ok(c, g['cid']))
+            add('data-bytes-reversed', seq_eq(list(SBytes.of(c['can_data']).items), list(reversed(g['data']))) if isinstance(c['can_data'], (SBytes, bytes)) else False)
+            add('frame-level-call', c['already_combined'] is False)
+            return
+        if self.fmt == 'actisense':
+            if p.kind == 'raise':
+                add('no-exception', False, f'raises {p.exc_name()}')
+                return
+            add('exactly-one-decode', len(calls) == 1)
+            if len(calls) != 1:
+                return
+            c = calls[0]
+            hn = g['hn']
+            add('priority-destination-source-from-the-header-word',
+                vand(veq(c['priority'], hn & 0xF), veq(c['destination_id'], (hn >> 4) & 0xFF), veq(c['source_id'], (hn >> 12) & 0xFF)))
+            add('pgn-from-the-second-token', veq(c['pgn'], g['pgn']))
+            add('data-bytes-reversed', seq_eq(list(SBytes.of(c['can_data']).items), list(reversed(g['data']))) if isinstance(c['can_data'], (SBytes, bytes)) else False)
+            add('whole-message-call', c['already_combined'] is True)
+            return
+        # basic
+        n, z, ac = vp
+        if p.kind == 'raise':
+            add('raises-only-when-too-few-fields', n < 1, f'raises {p.exc_name()}')
+            return
+        add('exactly-one-decode', len(calls) == 1)
+        if len(calls) != 1:
+            return
+        c = calls[0]
+        f = g['f']
+        add('header-from-the-fields', vand(veq(c['priority'], f['prio']), veq(c['pgn'], f['pgn']), veq(c['source_id'], f['src']), veq(c['destination_id'], f['dst'])))
+        data = c['can_data']
+        m = len(data) if isinstance(data, (SBytes, bytes)) else -1
+        L = g['length']
+        add('length-field-selects-the-data-bytes', vor(L == m, vand(L > n, m == n)) if m >= 0 else False)
+        add('data-bytes-reversed', seq_eq(list(SBytes.of(data).items), list(reversed(g['data'][:m]))) if m >= 0 else False)
+        add('combined-flag-passed-through', c['already_combined'] is ac)
 
 
 def add_c05_tasks(run):
-    pass
+    from props.C06_extra import WireRoundTrip
+    for fmt in ('ebyte', 'usb', 'yd', 'actisense'):
+        run.add(WireRoundTrip(fmt, prop='C05'))
